@@ -433,6 +433,65 @@ Proof.
   apply N.eqb_eq in E4. congruence.
 Qed.
 
+(* ---- the oracle, as an equivalence ---- *)
+Lemma nodupb_iff l : nodupb l = true <-> NoDup l.
+Proof.
+  split; [apply nodupb_spec|]. induction 1 as [|x l Hx _ IH]; cbn [nodupb]; [reflexivity|].
+  destruct (memN x l) eqn:E; [apply memN_spec in E; contradiction | exact IH].
+Qed.
+
+Lemma optN_eqb_spec a b : optN_eqb a b = true <-> a = b.
+Proof.
+  unfold optN_eqb. destruct a as [x|], b as [y|]; cbn [option_eqb]; try (split; [discriminate | intro H; inversion H]); [|tauto].
+  rewrite N.eqb_eq. split; [intros ->; reflexivity | intro H; inversion H; reflexivity].
+Qed.
+
+Definition same_mapP (obs m : list (N * N)) : Prop :=
+  NoDup (map fst obs) /\ length obs = length m /\ forall h v, In (h, v) obs -> assoc h m = Some v.
+
+Lemma same_map_iff obs m : same_map obs m = true <-> same_mapP obs m.
+Proof.
+  unfold same_map, same_mapP. rewrite !andb_true_iff, nodupb_iff, Nat.eqb_eq, forallb_forall.
+  split; intros (H1 & H2 & H3); repeat split; auto.
+  - intros h v Hin. specialize (H3 _ Hin). cbn [fst snd] in H3. apply optN_eqb_spec in H3. exact H3.
+  - intros [h v] Hin. cbn [fst snd]. apply optN_eqb_spec. apply H3. exact Hin.
+Qed.
+
+Definition getsP (gets : list (N * option N)) (m : list (N * N)) : Prop :=
+  forall h r, In (h, r) gets -> r = assoc h m.
+
+Lemma gets_iff gets m :
+  forallb (fun g => optN_eqb (snd g) (assoc (fst g) m)) gets = true <-> getsP gets m.
+Proof.
+  unfold getsP. rewrite forallb_forall. split.
+  - intros H h r Hin. specialize (H _ Hin). cbn [fst snd] in H. apply optN_eqb_spec in H. exact H.
+  - intros H [h r] Hin. cbn [fst snd]. apply optN_eqb_spec. apply H. exact Hin.
+Qed.
+
+(* everything the oracle demands of an observation *)
+Definition case_spec_full (c : case) : Prop :=
+  let m := ref_run (c_ops c) in
+  NoDup (map fst (c_all c)) /\ c_len c = N.of_nat (length m) /\ same_mapP (c_all c) m /\
+  getsP (c_gets c) m /\
+  same_mapP (c_inter c) (filter (fun hv => memN (fst hv) (c_other c)) m) /\
+  same_mapP (c_sub c) (filter (fun hv => negb (memN (fst hv) (c_other c))) m).
+
+Lemma ifneg (b : bool) (n x : nat) : n <> 0%nat ->
+  ((if negb b then n else x) = 0%nat <-> b = true /\ x = 0%nat).
+Proof. intro Hn. destruct b; cbn [negb]; split; try tauto; intros; try congruence. destruct H; discriminate. Qed.
+
+Lemma check_C48_iff c : check_C48 c = true <-> case_spec_full c.
+Proof.
+  unfold check_C48, check_code, case_spec_full. cbn zeta. rewrite Nat.eqb_eq.
+  rewrite !ifneg by discriminate.
+  rewrite nodupb_iff, N.eqb_eq, !same_map_iff, gets_iff. tauto.
+Qed.
+
+Lemma case_spec_full_weaken c : case_spec_full c -> case_spec c.
+Proof.
+  unfold case_spec_full, case_spec. cbn zeta. intros (H1 & H2 & (H3 & H4 & H5) & H6 & _). repeat split; auto.
+Qed.
+
 (* non-vacuity: blob 7 is stored in three packs (three index entries), blob 9 once; 4 is not in
    idx[0] (overflow); the set made when idx[0] had 2 entries (cap 3) *)
 Example c48_nonvacuous :
